@@ -14,6 +14,7 @@ import (
 	"regexp/syntax"
 	"sort"
 	"strings"
+	"sync"
 
 	"golang.org/x/tools/go/packages"
 	"golang.org/x/tools/go/ssa"
@@ -53,6 +54,8 @@ type World struct {
 	Regex   map[string]*syntax.Regexp
 	Sentinels []string
 	ErrTypes  []string
+	regexMu   sync.Mutex
+	regexes   map[string]*RegexInfo
 }
 
 func LoadWorld(repo string) (*World, error) {
@@ -98,7 +101,7 @@ func LoadWorld(repo string) (*World, error) {
 			}
 			pk.Contracts = pc
 		} else {
-			pk.Contracts = &PkgContracts{Configs: map[string]string{}, ConstVars: map[string]bool{}, Pures: map[string]*PureFunc{}, Funcs: map[string]*FuncContract{}, Regexes: map[string]string{}, Guarded: map[string]string{}}
+			pk.Contracts = &PkgContracts{File: cf, Configs: map[string]string{}, ConstVars: map[string]bool{}, Pures: map[string]*PureFunc{}, Funcs: map[string]*FuncContract{}, Regexes: map[string]string{}, Guarded: map[string]string{}}
 		}
 		pk.readInits()
 	}
